@@ -961,7 +961,8 @@ pub fn search_from(kind: &str, prefix: Vec<Op>, depth: usize, dedup_from: usize,
     let mut frontier: Vec<Vec<Op>> = vec![prefix.clone()];
     let mut seen: HashSet<u64> = HashSet::new();
     let mut total_seq = 0u64;
-    let wall_cap = std::env::var("VERIF_WALL_CAP_S").ok().and_then(|s| s.parse::<u64>().ok());
+    // thorough searches carry a wall-clock budget each (levels below the one that was cut are complete; the cut is reported)
+    let wall_cap = std::env::var("VERIF_WALL_CAP_S").ok().and_then(|s| s.parse::<u64>().ok()).or(if big { Some(300) } else { None });
     let start = std::time::Instant::now();
     for d in 1..=depth {
         let mut cands: Vec<Vec<Op>> = Vec::with_capacity(frontier.len() * alpha.len());
